@@ -81,7 +81,11 @@ def class_predicates(chk):
     I = make_interp()
     for name, bases in list(VIA_ORIGIN.items()) + list(VIA_ORIGIN_WITH_EXTRAS.items()) + list(DIRECT.items()):
         func = f"{INSP}.{name}"
-        via_origin = name in VIA_ORIGIN or name in VIA_ORIGIN_WITH_EXTRAS
+        # every class-valued predicate is about the class the annotation resolves to (statement: "its typing origin after
+        # NewType and alias resolution"), so the formula goes through origin() for all of them.  The DIRECT group used to
+        # be specified on the annotation object itself - that encoded the code (isintegertype(NewType('N', int)) is False)
+        # instead of the statement, and was corrected together with fix e070808.
+        via_origin = True
 
         def mk(I, path, bases=bases):
             for b in bases + COLLECTION_EXTRAS:
@@ -364,7 +368,86 @@ def structured_predicates(chk):
     chk.add(Ob(func, "named-tuple-classes-their-subclasses-and-typing.NamedTuple-classes-are-recognised", "ground", [], z3.BoolVal(not bad), {"bad": bad}))
 
 
+def instance_predicate_obligations(chk):
+    """ishashable(x) is Python's own answer - hash(x) works, i.e. isinstance(x, collections.abc.Hashable) - for instances *and* for
+    class objects (a class is hashable whatever its instances are).  Ground, on the real function."""
+    import dataclasses
+    from typelib.py import inspection
+
+    @dataclasses.dataclass
+    class EqDC:
+        a: int = 0
+
+    @dataclasses.dataclass(frozen=True)
+    class FrozenDC:
+        a: int = 0
+
+    class NoHash:
+        __hash__ = None
+    objs = [1, "s", b"b", 1.5, None, (), (1, [2]), frozenset(), [], {}, set(), bytearray(b"x"), EqDC(), FrozenDC(), NoHash(), object(),
+            int, str, list, dict, set, tuple, EqDC, FrozenDC, NoHash, type, typing.List[int], list[int], int | None, len, lambda: 0]
+    bad = []
+    for x in objs:
+        want = isinstance(x, collections.abc.Hashable)
+        try:
+            got = inspection.ishashable(x)
+        except Exception as e:
+            got = f"raised {type(e).__name__}"
+        if got is not want:
+            bad.append(f"ishashable({x!r}) is {got!r}, Python's own answer is {want}")
+    chk.add(Ob(f"{INSP}.ishashable", "answer-is-python's-own-for-instances-and-class-objects", "ground", [], z3.BoolVal(not bad),
+               {"bad": bad, "objects": len(objs)}))
+
+
+def signature_helper_obligations(chk):
+    """typed_dict_signature(TD): one keyword-only parameter per key, annotated with the key's type, required (no default)
+    exactly for the keys in TD.__required_keys__ - whatever the keys are called and however totality was inherited."""
+    import inspect as _inspect
+    from typelib.py import inspection
+    from props.concrete_util import clear_typelib_caches
+
+    class Page(typing.TypedDict):
+        items: list
+        keys: int
+        total: int
+
+    class Patch(Page, total=False):
+        note: str
+
+    class Mixed(typing.TypedDict, total=False):
+        a: typing.Required[int]
+        b: str
+
+    class Plain(typing.TypedDict):
+        name: str
+        qty: typing.NotRequired[int]
+    bad = []
+    for td in (Page, Patch, Mixed, Plain):
+        clear_typelib_caches()
+        try:
+            sig = inspection.typed_dict_signature(td)
+        except Exception as e:
+            bad.append(f"typed_dict_signature({td.__name__}) raised {e!r}")
+            continue
+        hints = typing.get_type_hints(td)
+        if list(sig.parameters) != list(hints):
+            bad.append(f"typed_dict_signature({td.__name__}) has parameters {list(sig.parameters)}, keys are {list(hints)}")
+            continue
+        for k, p in sig.parameters.items():
+            required = k in td.__required_keys__
+            if p.kind is not _inspect.Parameter.KEYWORD_ONLY:
+                bad.append(f"typed_dict_signature({td.__name__}).{k} is not keyword-only")
+            if required != (p.default is _inspect.Parameter.empty):
+                bad.append(f"typed_dict_signature({td.__name__}): key {k!r} is {'required' if required else 'not required'} but its "
+                           f"parameter has default {p.default!r}")
+    clear_typelib_caches()
+    chk.add(Ob(f"{INSP}.typed_dict_signature", "one-keyword-only-parameter-per-key-required-exactly-for-the-required-keys", "ground", [],
+               z3.BoolVal(not bad), {"bad": bad}))
+
+
 def obligations(chk):          # noqa: F811
+    signature_helper_obligations(chk)
+    instance_predicate_obligations(chk)
     class_predicates(chk)
     union_predicates(chk)
     simple_special(chk)
@@ -440,3 +523,21 @@ def alias_obligations(chk):
         bad.append("isstdlibtype of a string-valued alias is not False")
     clear_typelib_caches()
     chk.add(Ob(f"{INSP}.isstdlibtype", "an-alias-is-answered-by-what-it-stands-for", "ground", [], z3.BoolVal(not bad), {"bad": bad}))
+    # a union is a stdlib type exactly when every member other than None is - wherever None is declared
+    class Foo:
+        pass
+    cases = [(typing.Union[None, Foo], False), (typing.Union[Foo, None], False), (typing.Union[None, int], True), (typing.Union[int, None, str], True),
+             (typing.Union[int, None, Foo], False), (typing.Union[Foo, None, int], False), (Foo | None, False), (None | Foo, False), (int | None, True),
+             (typing.Union[int, str], True), (typing.Union[int, Foo], False)]
+    bad2 = []
+    for t, w in cases:
+        clear_typelib_caches()
+        try:
+            got = inspection.isstdlibtype(t)
+        except Exception as e:
+            got = f"raised {type(e).__name__}"
+        if got is not w:
+            bad2.append(f"isstdlibtype({t!r}) is {got!r}, expected {w}")
+    clear_typelib_caches()
+    chk.add(Ob(f"{INSP}.isstdlibtype", "a-union-is-stdlib-exactly-when-every-member-other-than-None-is-wherever-None-is-declared", "ground", [],
+               z3.BoolVal(not bad2), {"bad": bad2}))
